@@ -37,7 +37,8 @@ def cases(tier, seed):
 
 
 def allowed_outcome(case, rec):
-    return rec['outcome'] == 'domain'
+    # only the undefined Pearson correlation of a constant sub-range (NumPy: nan) is excluded; a division by zero anywhere else is a finding
+    return rec['outcome'] == 'domain' and any(' corrcoef' in w or ' r2' in w or ' linear_r2' in w for w in rec.get('exc_where', []))
 
 
 def run(h, case):
